@@ -4,7 +4,7 @@ INDEX = {
  "C01": {"package": "./roaring", "harnesses": [
    {"name": "VerifH01RunCountRange", "quick": {"bounds": {"runs": 2}}, "thorough": {"bounds": {"runs": 3}}},
    {"name": "VerifH01ArrayCountRange", "quick": {"bounds": {"array": 3}}, "thorough": {"bounds": {"array": 5}}},
-   {"name": "VerifH01BitmapCountRange", "common": {"max_depth": 2000}, "quick": {"bounds": {"words": 1, "bases": 2}}, "thorough": {"bounds": {"words": 2, "bases": 3}}},
+   {"name": "VerifH01BitmapCountRange", "common": {"max_depth": 2000}, "quick": {"bounds": {"words": 1, "bases": 2, "wordmask6": 1}}, "thorough": {"bounds": {"words": 2, "bases": 3}}},
    {"name": "VerifH01Intersect", "common": {"max_depth": 2000}, "quick": {"bounds": {"runs": 2, "array": 2, "words": 1, "runlen": 3, "wordmask6": 1, "bases": 2, "near": 1}}},
    {"name": "VerifH01IntersectionCount", "common": {"max_depth": 2000}, "quick": {"bounds": {"runs": 2, "array": 2, "words": 1, "wordmask6": 1, "bases": 2, "near": 1}}},
    {"name": "VerifH01Difference", "common": {"max_depth": 2000}, "quick": {"bounds": {"runs": 2, "array": 2, "words": 1, "runlen": 3, "wordmask6": 1, "bases": 2, "near": 1}}},
@@ -42,6 +42,9 @@ INDEX = {
  ]},
  "C10": {"package": ".", "harnesses": [
    {"name": "VerifH10Checksums", "common": {"max_depth": 2000}, "quick": {"bounds": {"ops": 9, "rows": 2, "colhis": 1, "caches": 3}}, "thorough": {"bounds": {"ops": 9, "rows": 3, "colhis": 2, "caches": 3}}},
+ ]},
+ "C11": {"package": ".", "harnesses": [
+   {"name": "VerifH11MergeBlock", "common": {"max_depth": 2000}, "quick": {"bounds": {"local": 1, "remotes": 2, "pairs": 2, "rows": 2, "colhis": 1}}, "thorough": {"bounds": {"local": 2, "remotes": 3, "pairs": 2, "rows": 3, "colhis": 2}}},
  ]},
  "C17": {"package": ".", "harnesses": [
    {"name": "VerifH17MinReducer", "quick": {"bounds": {"partials": 3}}, "thorough": {"bounds": {"partials": 4}}},
